@@ -73,7 +73,7 @@ def main():
         else:
             na.append({"property_id": pid, "reason": "check under construction in this round; not claimed yet"})
     m = {"version": 1,
-         "setup_cmd": "cd /verif/lean && lake build AvgModel AvgProofs Props avgdrv && cd /verif/harness && CARGO_NET_OFFLINE=true cargo build --release --offline && CARGO_NET_OFFLINE=true CARGO_TARGET_DIR=/verif/harness/target-nightly cargo +nightly build --release --offline --features nightly",
+         "setup_cmd": "cd /verif/lean && lake build AvgModel AvgProofs Props avgdrv && cd /verif/harness && CARGO_NET_OFFLINE=true cargo build --release --offline && CARGO_NET_OFFLINE=true cargo build --offline && CARGO_NET_OFFLINE=true CARGO_TARGET_DIR=/verif/harness/target-nightly cargo +nightly build --release --offline --features nightly",
          "hooks": {"guard": "vks_average_verif",
                    "enable": "no source hooks are needed: the harness uses the public API plus Debug output (and serde for C18); nothing in /repo is guarded",
                    "baseline_off_cmd": "cd /repo && cargo test --workspace --no-fail-fast --offline",
